@@ -92,6 +92,8 @@ func (u *Unit) computeAliases(key string) map[string]string {
 		}
 	}
 	rec := u.eng.localTypes[key]
+	recAll := u.eng.localTypes[key+"#all"] // every local the function had on the unchanged tree
+	u.allLocals = locals
 	var gone []string
 	for id := range rec {
 		if _, still := locals[id]; !still && named[id] {
@@ -112,7 +114,7 @@ func (u *Unit) computeAliases(key string) map[string]string {
 		var cands []string
 		for id, t := range locals {
 			if !named[id] && !taken[id] && t == rec[old] {
-				if _, known := rec[id]; !known {
+				if _, known := recAll[id]; !known { // only names that are new in this function
 					cands = append(cands, id)
 				}
 			}
@@ -129,9 +131,7 @@ func (u *Unit) computeAliases(key string) map[string]string {
 func (u *Unit) applyAliases(names map[string]SVal) {
 	for old, cur := range u.aliases {
 		if v, ok := names[cur]; ok {
-			if _, clash := names[old]; !clash {
-				names[old] = v
-			}
+			names[old] = v // the old name no longer exists in the function, so nothing is shadowed
 		}
 	}
 }
